@@ -13,8 +13,10 @@ From AwVerif Require Import Base.Prelude Model.PyFloat Model.IsoTime Model.Event
 Open Scope Z_scope.
 Set Printing Width 100000.
 
-(* int(us / 1000) computed with float division is us // 1000, for every microsecond field
-   (exhaustive kernel evaluation over the 10^6 values; no axiom) *)
+(* int(us / 1000) computed with float division is us // 1000, for every microsecond field.
+   Proved through Flocq here; proved a second time, axiom-free, by exhaustive kernel
+   evaluation over the 10^6 values: Proofs/PyFloatExhaustive.int_div_1000_exhaustive (built
+   with this file on every run; not imported here because coqchk has no vm). *)
 Theorem C13_int_div_1000 : forall us, 0 <= us < 1000000 ->
   bind (fdiv_int_int us 1000) int_of_float = Ok (us / 1000).
 Proof. exact int_div_1000_exact. Qed.
